@@ -113,7 +113,8 @@ Definition try_code (bs : list blk) (pos : nat) (nr : bool) b (hasc : bool) c (h
   let coff := if hasc then pab + 1 - pos else 0 in
   let pf := pab + length ccatch in
   let fclr := try_fclr bs nr hasf f in
-  let cf := if hasf then compile_ss bs' (pf + 1 + length fclr) (list_mode bs' false f) 0 f else [] in
+  let bsf := mkBlk BTry None 0 0 false None :: bs in
+  let cf := if hasf then compile_ss bsf (pf + 1 + length fclr) (list_mode bsf false f) 0 f else [] in
   let foff := if hasf then pf + 1 - pos else 0 in
   [ITry coff foff] ++ pre ++ cb ++ ccatch
     ++ (if hasf then [IEnterFinally] ++ fclr ++ cf ++ [ILeaveFinally] else [ILeaveTry]).
@@ -139,7 +140,8 @@ Proof.
       let coff := if hasc then pab + 1 - pos else 0 in
       let pf := pab + length ccatch in
       let fclr := match fbrk, lp with Some _, None => clr body_nr | _, _ => [] end in
-      let cf := if hasf then compile_ss bs' (pf + 1 + length fclr) (list_mode bs' false f) 0 f else [] in
+      let bsf := mkBlk BTry None 0 0 false None :: bs in
+      let cf := if hasf then compile_ss bsf (pf + 1 + length fclr) (list_mode bsf false f) 0 f else [] in
       let foff := if hasf then pf + 1 - pos else 0 in
       [ITry coff foff] ++ pre ++ cb ++ ccatch
         ++ (if hasf then [IEnterFinally] ++ fclr ++ cf ++ [ILeaveFinally] else [ILeaveTry])).
@@ -189,12 +191,15 @@ Proof.
     set (br := try_breaking bs' hasf f). set (bnr := try_bnr bs' nr hasf f). set (fclr := try_fclr bs' nr hasf f).
     assert (S1 : shape_eq (mkBlk BTry None 0 0 false br :: bs) (mkBlk BTry None 0 0 false br :: bs')).
     { apply shape_cons; auto. repeat split. }
-    rewrite !(list_mode_shape _ _ _ _ S1).
+    assert (S2 : shape_eq (mkBlk BTry None 0 0 false None :: bs) (mkBlk BTry None 0 0 false None :: bs')).
+    { apply shape_cons; auto. repeat split. }
+    rewrite !(list_mode_shape _ _ _ _ S1). rewrite !(list_mode_shape _ _ _ _ S2).
+    pose (SH := fun B : blk => shape_cons B B bs bs' (conj eq_refl (conj eq_refl (conj eq_refl eq_refl))) H).
     cbv zeta.
     repeat match goal with
-           | |- context [length (compile_ss (?B :: bs) ?p ?m ?i b)] => rewrite (IHb (B :: bs) (B :: bs') p 0 m i S1)
-           | |- context [length (compile_ss (?B :: bs) ?p ?m ?i c)] => rewrite (IHc (B :: bs) (B :: bs') p 0 m i S1)
-           | |- context [length (compile_ss (?B :: bs) ?p ?m ?i f)] => rewrite (IHf (B :: bs) (B :: bs') p 0 m i S1)
+           | |- context [length (compile_ss (?B :: bs) ?p ?m ?i b)] => rewrite (IHb (B :: bs) (B :: bs') p 0 m i (SH B))
+           | |- context [length (compile_ss (?B :: bs) ?p ?m ?i c)] => rewrite (IHc (B :: bs) (B :: bs') p 0 m i (SH B))
+           | |- context [length (compile_ss (?B :: bs) ?p ?m ?i f)] => rewrite (IHf (B :: bs) (B :: bs') p 0 m i (SH B))
            end.
     repeat match goal with
            | |- context [length (compile_ss (?B :: bs') ?p ?m ?i b)] =>
@@ -207,9 +212,9 @@ Proof.
     destruct hasc, hasf; cbn [app length];
       repeat (rewrite ?app_length; cbn [length];
       repeat match goal with
-           | |- context [length (compile_ss (?B :: bs) ?p ?m ?i b)] => rewrite (IHb (B :: bs) (B :: bs') p 0 m i S1)
-           | |- context [length (compile_ss (?B :: bs) ?p ?m ?i c)] => rewrite (IHc (B :: bs) (B :: bs') p 0 m i S1)
-           | |- context [length (compile_ss (?B :: bs) ?p ?m ?i f)] => rewrite (IHf (B :: bs) (B :: bs') p 0 m i S1)
+           | |- context [length (compile_ss (?B :: bs) ?p ?m ?i b)] => rewrite (IHb (B :: bs) (B :: bs') p 0 m i (SH B))
+           | |- context [length (compile_ss (?B :: bs) ?p ?m ?i c)] => rewrite (IHc (B :: bs) (B :: bs') p 0 m i (SH B))
+           | |- context [length (compile_ss (?B :: bs) ?p ?m ?i f)] => rewrite (IHf (B :: bs) (B :: bs') p 0 m i (SH B))
            end;
       repeat match goal with
            | |- context [length (compile_ss (?B :: bs') ?p ?m ?i b)] =>
